@@ -156,7 +156,7 @@ def loop_cases(tier):
     depth = 2 if tier == "thorough" else 1
     width = 2
     for i, val in enumerate(gen.json_values(depth, width)):
-        if tier == "thorough" and i > 60000:
+        if tier == "thorough" and i > 300000:
             break
         name = NAMES[i % len(NAMES)]
         style = ("pos1", "kw1", "pos2", "kw2")[i % 4]
@@ -180,9 +180,9 @@ SESSION_STEPS = [("f", "pos1"), ("ns.f", "kw2"), ("a.b.c", "pos2"), ("BATCH", ""
 def session_cases(tier):
     leaves = gen.SMALL_LEAVES + [2 ** 53, -0.0, "\U0001F600", [1, [2]], {"k": {"a": None}}]
     steps = SESSION_STEPS
-    L = 4 if tier == "thorough" else 3
+    L = 5 if tier == "thorough" else 3
     for seq in itertools.product(range(len(steps)), repeat=L):
-        for vi in (0, 5, 11):
+        for vi in ((0, 5, 11) if L < 5 else (0,)):
             for ver in (VERSIONS if tier == "thorough" else VERSIONS[:2]):
                 yield (seq, vi, ver)
 
@@ -652,7 +652,7 @@ META = {
     "dispatcher (loopback) and through real servers over kernel TCP/Unix sockets, with a recording callable and type-exact comparison",
     "rule": "loopback: 9 method names (identifier, dotted registered name, instance attribute path, non-ASCII, with space, hyphen, underscore, keyword) x 5 "
     "argument styles x 23 leaf values x client/server versions {1.0,2.0}^2 x translation on/off x {plain, dotted chain}; plus every JSON value of depth <=1 "
-    "(thorough <=2, capped at 60000) width <=2 as argument and return value; sessions: every sequence of 3 (thorough 4) steps over {4 calls, batch, notification, "
+    "(thorough <=2, capped at 300000) width <=2 as argument and return value; sessions: every sequence of 3 (thorough 5) steps over {4 calls, batch, notification, "
     "re-registration of a name, History.clear()} on one proxy with one History (the newest registration must be the one invoked); translation-off: payloads with "
     "'__jsonclass__' members as plain data through loopback and real servers configured with use_jsonclass=False; multicall: every batch of <=3 jobs over 6 job kinds (calls and notifications) x "
     "values x server version; kernel-sockets: SimpleJSONRPCServer and PooledJSONRPCServer x TCP/Unix x versions x 29 values (leaves, nested, >1 KiB "
